@@ -17,7 +17,7 @@ META = {
              "with a timeout.",
     "trusted": "as C02; in addition the closed-socket contract recv() -> b'' after T bytes",
     "bounds": {"quick": {"yields explored": 3, "R (source reads per packet)": 4, "T": "0..2^31", "prefix": "0 (and 3 in one job)"},
-               "thorough": {"yields explored": 4, "R (source reads per packet)": 6, "T": "0..2^31", "prefix": "0 and 3"}},
+               "thorough": {"yields explored": "4 with R = 4; 2 with R = 7", "R (source reads per packet)": "4 / 7", "T": "0..2^31", "prefix": "0 and 3"}},
     "stubs": c02.META["stubs"][:1] + ["socket closed by peer: recv(n) -> chunk of symbolic size 1..min(n, rest), then b''"],
     "outside_claim": ["behaviour after the first NP+1 yields of one run", "more than R source reads per packet",
                       "termination of the definition-level generator beyond what follows from the framer (C11/C14 cover parsing)"],
@@ -27,12 +27,16 @@ META = {
 
 def jobs(tier):
     q = tier == "quick"
-    NP, R = (2, 4) if q else (3, 6)
+    NP, R = (2, 4) if q else (3, 4)
     out = []
     for kind in ("bytes", "file", "socket"):
         for rmode in (("default",) if kind == "bytes" else ("default", "sym")):
             out.append({"name": f"arb-{kind}-{rmode}", "h": "arbitrary", "params": {"kind": kind, "NP": NP, "R": R, "rmode": rmode},
-                        "must_reach": ["stop/0", "stop/1", f"more/{NP + 1}"], "split": 4, "chunk": 20, "max_paths": 80000})
+                        "must_reach": ["stop/0", "stop/1", f"more/{NP + 1}"], "split": 4, "chunk": 20, "max_paths": 400000})
+            if not q and kind != "bytes":
+                # more source reads per packet (deeper fragmentation), fewer yields
+                out.append({"name": f"arb-{kind}-{rmode}-R7", "h": "arbitrary", "params": {"kind": kind, "NP": 1, "R": 7, "rmode": rmode},
+                            "must_reach": ["stop/0", "stop/1"], "split": 4, "chunk": 20, "max_paths": 400000})
     out.append({"name": "arb-file-sym-prefix3", "h": "arbitrary", "params": {"kind": "file", "NP": 1 if q else 2, "R": R, "rmode": "sym", "k": 3},
                 "must_reach": ["stop/0", "stop/1"], "split": 4, "chunk": 20})
     out.append({"name": "arb-file-viadef", "h": "arbitrary", "params": {"kind": "file", "NP": 1 if q else 2, "R": R, "rmode": "default", "via_def": True},
